@@ -33,7 +33,7 @@ func genC04(c *runCfg) error {
 		g.w("\tes, quirk, ok := ref.DecodeQ(zzTbl%s, in)\n", m.Message)
 		g.w("\tvrt.Assume(!quirk) // octets 0x08..0x0F are not identifiers of any message (outside the property's quantifier)\n")
 		g.w("\tvrt.Assert((err == nil) == ok, \"%s: decoder accepts exactly what the table-driven decoder accepts\")\n", m.Message)
-		g.w("\tif ok && err == nil {\n\t\tvrt.Equal(zzElems%s(a), es, \"%s: decoded fields equal the table-driven decoder's\")\n\t}\n}\n\n", m.Message, m.Message)
+		g.w("\tif ok && err == nil {\n\t\tvrt.Equal(zzElems%s(a), ref.Pad(zzTbl%s, es), \"%s: decoded fields equal the table-driven decoder's\")\n\t}\n}\n\n", m.Message, m.Message, m.Message)
 		// duplicates: every optional element twice with independently chosen lengths (last one wins, nothing of the first survives)
 		if len(optRows(m)) > 0 {
 			g.w("func VH_C04_%s_dup() {\n", m.Message)
@@ -47,7 +47,7 @@ func genC04(c *runCfg) error {
 			g.w("\ta := nasMessage.New%s(0)\n\terr := a.Decode%s(&in)\n", m.Message, m.Message)
 			g.w("\tes, _, ok := ref.DecodeQ(zzTbl%s, in)\n", m.Message)
 			g.w("\tvrt.Assert(ok && err == nil, \"%s: an element occurring twice is accepted\")\n", m.Message)
-			g.w("\tvrt.Equal(zzElems%s(a), es, \"%s: the last duplicate wins and nothing of the first occurrence survives\")\n}\n\n", m.Message, m.Message)
+			g.w("\tvrt.Equal(zzElems%s(a), ref.Pad(zzTbl%s, es), \"%s: the last duplicate wins and nothing of the first occurrence survives\")\n}\n\n", m.Message, m.Message, m.Message)
 		}
 		// encoder side on the shape families
 		g.w("func VH_C04_%s_enc() {\n", m.Message)
@@ -146,6 +146,13 @@ func genC03(c *runCfg) error {
 		g.w("\tn := vrt.Choose(\"n\", %d, %d)\n\tin := vrt.Bytes(\"in\", n)\n", h+mandMin(m), h+mandMin(m)+T)
 		g.w("\tvrt.Assume(in[0] == %s && in[%d] == %d)\n", epd, h-1, *m.MsgType)
 		g.w("\tzzFixpoint(in, \"%s\")\n}\n\n", m.Message)
+		// (b) decoder post-condition: whatever is accepted is well-formed (declared length = content length, within
+		// bounds), i.e. lies in the domain of the round-trip property C02; symbolic-length input, one optional element
+		g.w("func VH_C03_%s_wf() {\n", m.Message)
+		g.w("\tvrt.CutAt(%q, \"for.body\", 2)\n", decFn(m))
+		g.w("\tin := vrt.BytesSym(\"in\", 70000)\n\ta := nasMessage.New%s(0)\n\tvar err error\n", m.Message)
+		g.w("\tif vrt.Cut(func() { err = a.Decode%s(&in) }) || err != nil {\n\t\treturn\n\t}\n", m.Message)
+		g.w("\tvrt.Assert(ref.WellFormed(zzTbl%s, zzElems%s(a)), \"%s: every accepted input decodes to a well-formed message (Len = content length, within bounds)\")\n}\n\n", m.Message, m.Message, m.Message)
 		// (c) canonical inputs: reference encodings of well-formed messages
 		fam := "GmmMessage"
 		if m.Family == "gsm" {
